@@ -7,7 +7,9 @@ package zzchan
 
 import (
 	"context"
+	"runtime"
 	"sync"
+	"sync/atomic"
 	"time"
 )
 
@@ -279,4 +281,38 @@ func (j *Janitor) Stop() int {
 	j.mu.Lock()
 	defer j.mu.Unlock()
 	return j.ticks
+}
+
+// SpinWait: one goroutine polls a flag with time.Sleep, another with runtime.Gosched; a third sets the flags.
+func SpinWait() int {
+	var a, b atomic.Bool
+	var wg sync.WaitGroup
+	n := 0
+	var mu sync.Mutex
+	wg.Add(3)
+	go func() {
+		defer wg.Done()
+		for !a.Load() {
+			time.Sleep(time.Millisecond)
+		}
+		mu.Lock()
+		n++
+		mu.Unlock()
+	}()
+	go func() {
+		defer wg.Done()
+		for !b.Load() {
+			runtime.Gosched()
+		}
+		mu.Lock()
+		n++
+		mu.Unlock()
+	}()
+	go func() {
+		defer wg.Done()
+		a.Store(true)
+		b.Store(true)
+	}()
+	wg.Wait()
+	return n
 }
